@@ -134,6 +134,15 @@ def check(case, ctx):
     if list(again.dims) != exp_dims or not np.array_equal(np.asarray(again.transpose(*exp_dims_base).values), exp):
         raise Violation("the same call repeated after another call on the same Grid gives another result")
 
+    # the very same input object updated in place (a time-stepping loop): the result follows the new values
+    G1 = 3 - 2 * G
+    da.values[...] = xr.DataArray(T.cut(G1, Kx, Ky, N, orients), dims=base_dims).transpose(*case["dims"]).values
+    exp1, _ = T.scalar_reference(G1, Kx, Ky, N, orients, case["px"], case["py"], case["op"], case["axis"], case["to"],
+                                 case["boundary"], case["fill"])
+    upd = must_return(f"Grid.{case['op']} (input updated in place)", getattr(grid, case["op"]), da, "XY"[case["axis"]], **ckw)
+    if list(upd.dims) != exp_dims or not np.array_equal(np.asarray(upd.transpose(*exp_dims_base).values), exp1):
+        raise Violation("after the input object was updated in place the result does not follow the new values")
+
     kinds = link_kinds(table)
     special = any(("swap" in k or "rev" in k) for k in kinds)
     nonconst = bool(np.ptp(G) > 0)
